@@ -44,6 +44,13 @@ def gen_case(seed: int, tier: str, index: int) -> Dict[str, Any]:
         # spa-side device flips that make the facade switch mode
         for _ in range(rng.randint(2, 10)):
             plan.append({"op": "flip", "t": round(rng.uniform(1.0, dur), 3), "dev": rng.randrange(6), "on": rng.random() < 0.5})
+        # reconnect cycles: the timing table is process-wide and outlives a facade, so a device that changes while the client is
+        # away must still be reflected once the new facade is ready
+        for _ in range(rng.choice([0, 1, 1, 2])):
+            t0 = round(rng.uniform(2.0, dur - 8), 3)
+            plan.append({"op": "reset", "t": t0})
+            plan.append({"op": "flip", "t": round(t0 + rng.choice([0.05, 0.5, 1.5]), 3), "dev": rng.randrange(6), "on": rng.random() < 0.3})
+            plan.append({"op": "flip", "t": round(t0 + rng.choice([0.1, 0.8, 2.0]), 3), "dev": rng.randrange(6), "on": False})
     plan.sort(key=lambda o: (o["t"], o["op"] != "switch"))
     snaps = [s for s in snapshot_files()]
     cfg = {"kind": kind, "net": {"lat_min": 0.001, "lat_max": 0.004}, "loop": loop_cfg, "tables": tables, "duration": dur,
@@ -158,6 +165,12 @@ async def scenario(world: WorldA) -> None:
                 tasks.append(t)
             elif op["op"] == "flip" and sysm is not None:
                 flip(op)
+            elif op["op"] == "reset" and sysm is not None:
+                res.fault("user_reset")
+                try:
+                    await sysm.man.async_reset()
+                except Exception:
+                    res.probe("reset_raised")
         rest = base + cfg["duration"] - world.now()
         if rest > 0:
             await asyncio.sleep(rest)
@@ -198,9 +211,27 @@ async def scenario(world: WorldA) -> None:
         async with sysm.man as man:
             await sysm.wait_connected()
             facade_ready[id(man.facade)] = True
+            keep: List[Any] = [man.facade]
+
+            async def readiness() -> None:
+                # a facade is judged only after it has completed one update cycle
+                while True:
+                    f = man.facade
+                    if f is not None and id(f) not in facade_ready:
+                        keep.append(f)
+                        try:
+                            await asyncio.wait_for(f.wait_for_one_update(), 120)
+                            if man.facade is f:
+                                facade_ready[id(f)] = True
+                                res.probe("facade_ready_after_reconnect")
+                        except asyncio.TimeoutError:
+                            facade_ready[id(f)] = False
+                    await asyncio.sleep(0.1)
+            rtask = asyncio.create_task(readiness(), name="HARNESS:readiness")
             # the facade decides the mode from now on
             mon.expected_mode = None
             await body()
+            rtask.cancel()
     else:
         await body()
 
@@ -272,7 +303,7 @@ ASSUMPTIONS = [
     "'at once' = every moment between the switch and the wake is attributable to simulator-injected callback cost (+2 ms)",
     "only upper bounds are checked: the statement does not forbid an early wake",
 ]
-PROBES = ["facade_wants_active", "facade_wants_idle", "sleeper_interrupted_by_switch", "sleeper_ran_full_time", "switch_in_same_instant_as_sleep_start", "both_modes_requested", "ten_or_more_sleeps"]
+PROBES = ["facade_ready_after_reconnect", "facade_wants_active", "facade_wants_idle", "sleeper_interrupted_by_switch", "sleeper_ran_full_time", "switch_in_same_instant_as_sleep_start", "both_modes_requested", "ten_or_more_sleeps"]
 N_QUICK = 4000
 
 
